@@ -62,11 +62,13 @@ var selTable = map[string]map[string]string{
 		"ListenUDP": "ListenUDP", "UDPConn": "UDPConn", "Dial": "Dial", "DialTimeout": "DialTimeout",
 		"Listen": "Listen", "ListenPacket": "ListenPacket",
 	},
-	"io/ioutil": {"ReadFile": "ReadFile", "WriteFile": "WriteFile"},
+	"io/ioutil": {"ReadFile": "ReadFile", "WriteFile": "WriteFile", "TempFile": "CreateTemp"},
 	"os": {
 		"ReadFile": "ReadFile", "WriteFile": "WriteFile", "OpenFile": "OpenFile", "Create": "Create", "Open": "Open",
 		"Stat": "Stat", "Getenv": "Getenv", "LookupEnv": "LookupEnv", "Exit": "Exit", "Getpid": "Getpid",
 		"Args": "!call:Args", "Stderr": "Stderr", "File": "File",
+		"Rename": "Rename", "Remove": "Remove", "RemoveAll": "RemoveAll", "MkdirAll": "MkdirAll", "Mkdir": "Mkdir",
+		"Truncate": "Truncate", "Chmod": "Chmod", "CreateTemp": "CreateTemp",
 	},
 	"os/signal": {"Notify": "Notify"},
 	"os/exec":   {"Command": "Command"},
@@ -88,6 +90,12 @@ var ioHarmless = map[string]bool{
 	"net.IPv4": true, "net.IPv4len": true, "net.IPv6len": true, "net.Addr": true, "net.TCPAddr": true, "net.OpError": true,
 	"os.Signal": true, "os.IsNotExist": true, "os.O_RDWR": true, "os.O_CREATE": true, "os.O_APPEND": true, "os.O_WRONLY": true,
 	"os.O_TRUNC": true, "os.O_RDONLY": true, "os.FileMode": true, "os.FileInfo": true, "os.IsExist": true,
+	"os.O_EXCL": true, "os.O_SYNC": true, "os.ErrNotExist": true, "os.ErrExist": true, "os.PathError": true, "os.LinkError": true,
+	"os.ModePerm": true, "os.PathSeparator": true, "os.IsPermission": true, "os.IsTimeout": true, "os.ErrDeadlineExceeded": true,
+	"net.Error": true, "net.ErrClosed": true, "net.IPv6zero": true, "net.IPv4zero": true, "net.IPMask": true, "net.IPNet": true,
+	"net.UDPAddrFromAddrPort": true, "net.ParseMAC": true, "net.CIDRMask": true, "net.IPv4Mask": true, "net.InvalidAddrError": true,
+	"syscall.EPIPE": true, "syscall.ECONNRESET": true, "syscall.ENOSPC": true, "syscall.EINVAL": true, "syscall.Errno": true, "syscall.ENOENT": true,
+	"syscall.SIGHUP": true, "syscall.SIGQUIT": true, "syscall.SIGUSR1": true, "syscall.SIGUSR2": true, "syscall.Signal": true,
 	"syscall.SIGINT": true, "syscall.SIGTERM": true, "syscall.SOCK_RAW": true, "syscall.IPPROTO_RAW": true, "syscall.AF_INET": true,
 	"syscall.AF_INET6": true, "syscall.Sockaddr": true, "syscall.SockaddrInet4": true, "syscall.SockaddrInet6": true,
 	"net/http.ResponseWriter": true, "net/http.Request": true, "net/http.HandlerFunc": true, "net/http.NewServeMux": true,
